@@ -10,7 +10,7 @@ cd $wt || exit 2
 [ -f _seed/patch.diff ] || { echo "no patch"; exit 2; }
 demo=$(ls wtransport-proto/tests/seed_demo.rs wtransport/tests/seed_demo.rs 2>/dev/null | head -1)
 crate=$(echo $demo | cut -d/ -f1)
-feat=""; [ "$crate" = "wtransport-proto" ] && feat="--features async"
+feat="--features quinn"; [ "$crate" = "wtransport-proto" ] && feat="--features async"
 mkdir -p $out
 # normalise: make sure the worktree has exactly the patch applied
 git checkout -q -- . 2>/dev/null
